@@ -1,8 +1,9 @@
-(* Extraction of the executable model and specification of C25 (ExtrOcamlBasic only). *)
+(* Extraction of the executable models and specification of C25 (ExtrOcamlBasic only). *)
 From Coq Require Import Extraction ExtrOcamlBasic NArith ZArith.
 From OV.C24 Require Import Model.
-From OV.C25 Require Import Model Spec.
+From OV.C25 Require Import Model Spec HModel.
 Extraction Language OCaml.
 Extraction "../_work/extract/C25/model.ml"
   Z.add Z.mul Z.opp Z.of_N N.add N.mul dec_of_Z
-  m_step m_run s_step s_run abs abs_obs split_path.
+  m_step m_run s_step s_run abs abs_obs split_path
+  hm_run hm_step vis vis_obs op_vis clean_of hnone run_safe.
